@@ -202,3 +202,15 @@ package auth
 //@        ensures bucketLockConfig.Enabled ==> (forall j int :: 0 <= j && j < len(objects) ==> unlocked)
 //@   loop 1 invariant {C10} [bounds] -1 <= rangeindex && rangeindex < len(objects)
 //@   loop 1 invariant {C10} [unlocked-so-far] forall j int :: 0 <= j && j <= rangeindex ==> unlocked
+
+// Which actions are object-level is a table (supportedObjectActionList); IsObjectAction must consult
+// that table: exact names by membership, trailing-* patterns by prefix against its keys.
+//@ func getBoolPtr
+//@   frame none
+//@   ensures {C14} [points-to-the-value] ret0 != nil && *ret0 == bl
+//@ func (Action) IsObjectAction
+//@   at-return {C14} [nil-exactly-for-all-actions] ensures (ret0 == nil) <==> (a == AllActions)
+//@   at-return {C14} [exact-name-by-table] when a != AllActions && len(a) > 0 && a[len(a) - 1] != '*' :: ensures *ret0 <==> in(a, supportedObjectActionList)
+//@   at-return {C14} [pattern-by-table-prefix] when a != AllActions && len(a) > 0 && a[len(a) - 1] == '*' :: \
+//@        ensures *ret0 <==> (exists act Action :: in(act, supportedObjectActionList) && strings.HasPrefix(act, strings.TrimSuffix(a, "*")))
+//@   loop 1 invariant {C14} [visited-none-has-the-prefix] forall act Action :: visited(supportedObjectActionList, act) ==> !strings.HasPrefix(act, strings.TrimSuffix(a, "*"))
